@@ -350,6 +350,38 @@ def run(index, rep, tier):
             rep.check(ok, "R07.9", mp.qualname, "pruned search for the most distant pair", fn_where(mp), "max_pairwise_distance_taxa scans every pair once",
                       "PhylogeneticDistanceMatrix.max_pairwise_distance_taxa: %s - reroot_at_midpoint takes the ends of the longest leaf-to-leaf path from here; a search that does not look at every pair is exact only when all edge lengths are non-negative, and with a negative internal edge (neighbour-joining trees) the root is placed half-way along a path that is not the longest" % why)
 
+    # ---- R07.10 a midpoint that falls on a node is the node at the TOP of the edge just measured
+    with rep.section("R07.10"):
+        rep.rule("R07.10", "a midpoint that falls on a node is the node at the top of the edge just measured: in the climb of reroot_at_midpoint, when the remaining half-length equals the length of the climbing node's edge, the whole edge has been used up and the midpoint is that node's PARENT - the node recorded as the new root is `<climber>._parent_node`, never the climber itself (which sits a full edge below the midpoint, and may be a leaf)")
+        mp_ = index.function(TREE + ".reroot_at_midpoint")
+        loops = [l for l in walk_no_nested(mp_.node) if isinstance(l, ast.While)]
+        sites = []
+        for l in loops:
+            climbers = {norm(t) for st in ast.walk(l) if isinstance(st, ast.Assign) for t in st.targets if isinstance(t, ast.Name) and isinstance(st.value, ast.Attribute) and st.value.attr in ("_parent_node", "parent_node") and norm(st.value.value) == norm(t)}
+            if not climbers:
+                continue
+            for st in ast.walk(l):
+                if isinstance(st, ast.Assign) and len(st.targets) == 1 and isinstance(st.targets[0], ast.Name) and st.targets[0].id not in climbers:
+                    v = st.value
+                    if isinstance(v, ast.Name) and v.id in climbers:
+                        sites.append((st, v.id, False))
+                    elif isinstance(v, ast.Attribute) and v.attr in ("_parent_node", "parent_node") and norm(v.value) in climbers:
+                        sites.append((st, norm(v.value), True))
+        if not sites:
+            raise AnalysisError("R07.10: the climb of reroot_at_midpoint (a while loop that walks <node> = <node>._parent_node and records the node the midpoint falls on) was not recognised")
+        for st, cl, ok in sites:
+            rep.check(ok, "R07.10", mp_.qualname, "the climbing node itself recorded as the midpoint", fn_where(mp_, st), "reroot_at_midpoint: a midpoint on a node is recorded as the climber's parent",
+                      "Tree.reroot_at_midpoint records `%s` when the remaining half-length equals the length of `%s`'s edge: the midpoint is then at the TOP of that edge, i.e. `%s._parent_node` - rooting at `%s` puts the root one full edge away from the midpoint (for ((A:1,B:1):1,(C:1,D:1):1) the root lands on (A,B): A at 1, C at 3), and when the climber is still the leaf itself the leaf becomes the root and its branch is lost" % (norm_stmt(st), cl, cl, cl))
+        # the two ways of placing the root (on a node, inside an edge) re-seed with the same options
+        rcs = [c for c in calls_in(mp_.node) if call_name(c) == "reseed_at"]
+        if len(rcs) < 2:
+            raise AnalysisError("R07.10: reroot_at_midpoint no longer re-seeds on both branches")
+        kws = [{k.arg: norm(k.value) for k in c.keywords if k.arg} for c in rcs]
+        for c, kw in zip(rcs, kws):
+            v = kw.get("collapse_unrooted_basal_bifurcation")
+            rep.check(v == "False", "R07.10", mp_.qualname, "re-seeding with the basal collapse left on", fn_where(mp_, c), "reroot_at_midpoint re-seeds with collapse_unrooted_basal_bifurcation=False",
+                      "Tree.reroot_at_midpoint re-seeds with collapse_unrooted_basal_bifurcation=%s: the tree is about to be declared rooted, and when the midpoint is the degree-two root of an (until then) unrooted tree the collapse removes exactly the node the root has to sit on - the result is rooted one edge away from the midpoint" % v)
+
 
 def pm_target(fi, call):
     pm = parent_map(fi.node)
